@@ -78,7 +78,8 @@ Proof.
   - destruct (load_json EDict g p) as [[] | |]; discriminate.
   - unfold load_pickle. destruct p; try discriminate.
     + destruct (nth_error g id); discriminate.
-    + destruct (nth_error g id); [| discriminate]. destruct (nth_error (n_mro n) i); discriminate.
+    + destruct (nth_error g id); [| discriminate]. destruct (nth_error (n_mro n) i) as [m |]; [| discriminate].
+      destruct (m_is_exc m); discriminate.
 Qed.
 
 (* ------------------------------------------------------------------ shape of what the JSON coder prepares *)
@@ -444,6 +445,7 @@ Proof.
     repeat split; auto; intros; congruence.
   - destruct (first_ok CPickle (n_mro n) 0) as [i |] eqn:E2.
     + cbn in H. rewrite Hn in H. destruct (nth_error (n_mro n) i) as [m |] eqn:Hm; [| discriminate].
+      destruct (m_is_exc m) eqn:Hex; [| discriminate].
       inversion H. exists n, (if i =? 0 then KOrig else KBase i), (i =? 0), (m_loaded m).
       repeat split; auto; try (intros; congruence).
       intros _ i' Hi'. rewrite E2 in Hi'. inversion Hi'; subst i'.
@@ -481,17 +483,17 @@ Proof.
     + intros [H _]. destruct (H eq_refl) as [Hk [Hn Ha]]. subst. auto.
   - destruct (first_ok CPickle (n_mro n) 0) as [i |] eqn:E2.
     + destruct (first_ok_spec _ _ _ _ E2) as [j [m [Hi [Hnj [Hok Hlt]]]]]. cbn in Hi. subst j. rewrite Hnj.
-      rewrite andb_true_iff, largs_eqb_eq. split.
-      * intros [Ha Hk]. split; [intros; discriminate |]. split; [| intros; discriminate].
+      rewrite !andb_true_iff, largs_eqb_eq. split.
+      * intros [[Hex Ha] Hk]. split; [intros; discriminate |]. split; [| intros; discriminate].
         intros _ i' Hi'. inversion Hi'; subst i'. exists m.
-        split; [exact Hnj |]. split; [exact Hok |]. split; [exact Hlt |]. split; [exact Ha |].
+        split; [exact Hnj |]. split; [exact Hok |]. split; [exact Hex |]. split; [exact Hlt |]. split; [exact Ha |].
         destruct i as [| i]; cbn [Nat.eqb] in Hk.
         -- apply andb_true_iff in Hk. destruct Hk as [Hk Hn]. destruct k; try discriminate.
            split; [auto | intros E; congruence].
         -- destruct k; try discriminate. apply Nat.eqb_eq in Hk. subst.
            split; [intros; discriminate | auto].
-      * intros [_ [H _]]. destruct (H eq_refl i eq_refl) as [m' [Hm' [_ [_ [Ha [Hz Hnz]]]]]].
-        rewrite Hnj in Hm'. inversion Hm'; subst m'. split; [exact Ha |].
+      * intros [_ [H _]]. destruct (H eq_refl i eq_refl) as [m' [Hm' [_ [Hex [_ [Ha [Hz Hnz]]]]]]].
+        rewrite Hnj in Hm'. inversion Hm'; subst m'. split; [split; [exact Hex | exact Ha] |].
         destruct i as [| i]; cbn [Nat.eqb].
         -- destruct (Hz eq_refl). subst. reflexivity.
         -- rewrite (Hnz ltac:(discriminate)). apply Nat.eqb_refl.
@@ -589,9 +591,9 @@ Proof.
 Qed.
 
 Theorem no_failure_pickle : forall g root,
-  wf g -> root < length g -> wrappable g -> exists t, roundtrip EPickle g root = OLoaded t.
+  wf g -> root < length g -> wrappable g -> mro_exceptions g -> exists t, roundtrip EPickle g root = OLoaded t.
 Proof.
-  intros g root Hwf Hr Hw.
+  intros g root Hwf Hr Hw Hmx.
   destruct (prepare_total CPickle g root Hwf Hr) as [p Hp].
   unfold roundtrip. cbn [coder_of]. rewrite Hp.
   unfold prepare in Hp. cbn [prep_exc mem existsb] in Hp.
@@ -602,7 +604,8 @@ Proof.
   - inversion Hp. cbn. rewrite Hn. eauto.
   - destruct (first_ok CPickle (n_mro n) 0) as [i |] eqn:E2.
     + inversion Hp. cbn. rewrite Hn.
-      destruct (first_ok_spec _ _ _ _ E2) as [j [m [Hi [Hnj _]]]]. cbn in Hi. subst j. rewrite Hnj. eauto.
+      destruct (first_ok_spec _ _ _ _ E2) as [j [m [Hi [Hnj [Hok _]]]]]. cbn in Hi. subst j. rewrite Hnj.
+      rewrite (Hmx n m Hin (nth_error_In _ _ Hnj) Hok). eauto.
     + destruct (match n_cause n with None => Some PNone | Some j => prep_exc CPickle g (length g) [root] j end) as [wc |];
         [| discriminate].
       destruct (match (if n_suppress n then None else n_context n) with
